@@ -21,7 +21,7 @@ pub static DEF: PropDef = PropDef {
     id: "C01",
     level: "fault_enumeration",
     engine: "ingest",
-    rule: "random phase: one run = a real Ingester (WAL EveryWrite on the shim disk, object-store catalog, flush_row_count 2..8, flush_interval 1..30 s, WAL segments of ~1..3 entries) with 2..4 writer tasks issuing 3..10 writes of 1..3 rows over five alternating schemas (two that differ in columns, three that differ from the first only in nullability / column order / metadata), the flush timer, and a fault profile drawn per run (fault-free / store request failures before+after effect and delays / disk ENOSPC (also after a partial write)-EIO-short-torn writes with tokio's deferred error reporting / a failed fsync followed by power loss (dirty pages of the failed sync are dropped) / node crashes at any quiescent point or inside a file operation, up to 3 crash-restart rounds incl. crashes during recovery), ended either by graceful shutdown or by crash+restart+shutdown; sweep phase (fault enumeration): for generated workloads, one run per (object-store request index of the fault-free run) x {crash before, crash after, fail before, fail after}; distinct = distinct (variant, grant/fault/crash sequence); non-trivial = completed AND (interleaved OR a fault/crash fired)",
+    rule: "random phase: one run = a real Ingester (WAL EveryWrite on the shim disk, object-store catalog, flush_row_count 2..8 (one run in five: a buffer limit of 1.5..2.5 KB under a large threshold, so that writes are refused with BufferFull while acknowledged rows are buffered), flush_interval 1..30 s, WAL segments of ~1..3 entries) with 2..4 writer tasks issuing 3..10 writes of 1..3 rows over five alternating schemas (two that differ in columns, three that differ from the first only in nullability / column order / metadata), the flush timer, and a fault profile drawn per run (fault-free / store request failures before+after effect and delays / disk ENOSPC (also after a partial write)-EIO-short-torn writes with tokio's deferred error reporting / a failed fsync followed by power loss (dirty pages of the failed sync are dropped) / node crashes at any quiescent point or inside a file operation, up to 3 crash-restart rounds incl. crashes during recovery), ended either by graceful shutdown or by crash+restart+shutdown; sweep phase (fault enumeration): for generated workloads, one run per (object-store request index of the fault-free run) x {crash before, crash after, fail before, fail after}; distinct = distinct (variant, grant/fault/crash sequence); non-trivial = completed AND (interleaved OR a fault/crash fired)",
     quick_runs: 4000,
     thorough_runs: 60_000,
     run_cap_ms: 30_000,
@@ -166,6 +166,13 @@ fn scen(spec: RunSpec) -> ScenFut {
             cfg.flush_row_count = 60;
             cfg.flush_interval = Duration::from_secs(30);
             cfg.wal.max_segment_size = 1 << 20;
+        }
+        // one random run in five has a tiny buffer limit and a large flush threshold: writes are refused with BufferFull
+        // while acknowledged rows sit in the buffer (a refused write is not an acknowledged one)
+        if !is_sweep && profile != 6 && sim::w(5) == 4 {
+            cfg.max_buffer_size_bytes = [1500usize, 2500][sim::w(2) as usize];
+            cfg.flush_row_count = 60;
+            sim::probe("tiny-buffer-limit");
         }
         let post = sim::w_bool(50);
         let adv = [2u32, 8, 20][sim::w(3) as usize];
